@@ -24,6 +24,7 @@ import (
 	"strconv"
 	"strings"
 	"sync"
+	"time"
 
 	"verif/kit"
 
@@ -58,12 +59,12 @@ var literals = func() []string {
 // shiftCounts is the right operand set of the typed shift space.
 var shiftCounts = []string{"0", "1", "-1", "7", "8", "31", "32", "63", "64", "127", "255", "256", "511", "512", pow2(64, 0), "2.0", "0.5", "'a'", `"s"`, "true", "0i", "1i"}
 
-var deep8 = []string{"1", "-1", "7", pow2(63, -1), pow2(100, 0), "0.5", "0.1", "1i"}
+var deep8 = []string{"-1", "1", "7", pow2(63, -1), pow2(100, 0), "0.5", "0.1", "1i"}
 var deep16 = append(append([]string{}, deep8...), "true", "1e308", "0", "'a'", `"s"`, "1e1000", pow2(64, 0), "512")
 
 // coreLiterals is the subset used by the typed spaces of the quick tier: one
 // value on each side of every width boundary reachable with few literals.
-var coreLiterals = []string{"0", "1", "-1", "7", "127", "128", "255", "256", pow2(31, -1), pow2(31, 0), pow2(32, 0),
+var coreLiterals = []string{"0", "1", "-1", "7", "127", "128", "255", pow2(31, 0), pow2(32, 0),
 	pow2(63, -1), pow2(63, 0), pow2(64, -1), pow2(64, 0), pow2(100, 0), "0.5", "0.1", "1e308", `"s"`, "true", "1i"}
 var coreShiftCounts = []string{"0", "1", "-1", "8", "63", "64", "511", "512", pow2(64, 0), "2.0", "0.5"}
 
@@ -473,6 +474,12 @@ func checkExpr(e string) kit.Outcome {
 		want, _ := goValue(gv.val, name)
 		probes = append(probes, probe{"c", want, opKey + " value-differs(default-type)"})
 	}
+	// The value of c comes first: a wrong c explains every wrong conversion.
+	if o, bad := runProbes(base, head, opKey, probes); bad {
+		return o
+	}
+	ops += 1 + len(probes)
+	probes = nil
 	// 2. representability by every basic type and the converted values
 	var accepted []int
 	for i, t := range basicTypes {
@@ -506,6 +513,30 @@ func checkExpr(e string) kit.Outcome {
 			probe{t + "(c) == " + lit, true, k + " form=const=="},
 			probe{"func() bool { v := " + t + "(c); return v == " + lit + " }()", true, k + " form=var=="})
 	}
+	if o, bad := runProbes(base, head, opKey, probes); bad {
+		if strings.Contains(o.Key, "value-program-rejected") {
+			// isolate the conversion that Scriggo rejects
+			for _, i := range accepted {
+				t := basicTypes[i]
+				src := base + "const d = " + t + "(c)\nfunc main() { }\n"
+				if _, r1 := scriggoBuild(src); !r1.ok {
+					return fail("convert "+classOfName(t)+"(c) c="+cClass+" gotypes=accept scriggo=reject("+why(r1.msg)+")",
+						fmt.Sprintf("%sconst d = %s(c)\ngo/types: accepted, d = %s\nscriggo.Build: %s", head, t, gv.conv[i].ExactString(), r1.msg))
+				}
+			}
+		}
+		return o
+	}
+	ops++
+	return kit.Outcome{OK: true, Nontrivial: operandsValid, Class: "both-accept:" + cClass, Ops: ops + len(probes)}
+}
+
+// runProbes builds and runs a program that prints the probes and compares the
+// values received by RunOptions.Print with the expected ones.
+func runProbes(base, head, opKey string, probes []probe) (kit.Outcome, bool) {
+	if len(probes) == 0 {
+		return kit.Outcome{}, false
+	}
 	var prog strings.Builder
 	prog.WriteString(base)
 	prog.WriteString("func main() {\n")
@@ -514,49 +545,39 @@ func checkExpr(e string) kit.Outcome {
 	}
 	prog.WriteString("}\n")
 	p, r := scriggoBuild(prog.String())
-	ops++
 	if r.badErr != "" {
-		return fail("error-type|"+r.badErr, fmt.Sprintf("%s\nBuild returned %s: %s", prog.String(), r.badErr, r.msg))
+		return fail("error-type|"+r.badErr, fmt.Sprintf("%s\nBuild returned %s: %s", prog.String(), r.badErr, r.msg)), true
 	}
 	if !r.ok {
-		// isolate the conversion that Scriggo rejects
-		for _, i := range accepted {
-			t := basicTypes[i]
-			src := base + "const d = " + t + "(c)\nfunc main() { }\n"
-			if _, r1 := scriggoBuild(src); !r1.ok {
-				return fail("convert "+classOfName(t)+"(c) c="+cClass+" gotypes=accept scriggo=reject("+why(r1.msg)+")",
-					fmt.Sprintf("%sconst d = %s(c)\ngo/types: accepted, d = %s\nscriggo.Build: %s", head, t, gv.conv[i].ExactString(), r1.msg))
-			}
-		}
 		// isolate the probe
 		for _, pr := range probes {
 			src := base + "func main() {\n\tprint(" + pr.what + ")\n}\n"
-			if _, r1 := scriggoBuild(src); !r1.ok {
-				return fail(pr.key+" probe-rejected("+why(r1.msg)+")", fmt.Sprintf("%s\ngo/types accepts it; scriggo.Build: %s", src, r1.msg))
+			if _, r1 := scriggoBuild(src); !r1.ok && !strings.Contains(pr.what, "(c)") {
+				return fail(pr.key+" probe-rejected("+why(r1.msg)+")", fmt.Sprintf("%s\ngo/types accepts it; scriggo.Build: %s", src, r1.msg)), true
 			}
 		}
 		return fail(opKey+" value-program-rejected("+why(r.msg)+")",
-			fmt.Sprintf("%s\ngo/types accepts every line; scriggo.Build: %s", prog.String(), r.msg))
+			fmt.Sprintf("%s\ngo/types accepts every line; scriggo.Build: %s", prog.String(), r.msg)), true
 	}
 	var got []any
 	if err := p.Run(&scriggo.RunOptions{Print: func(v any) { got = append(got, v) }}); err != nil {
-		return fail(opKey+" run-error|"+kit.NormMsg(err.Error()), fmt.Sprintf("%s\nRun: %v", prog.String(), err))
+		return fail(opKey+" run-error|"+kit.NormMsg(err.Error()), fmt.Sprintf("%s\nRun: %v", prog.String(), err)), true
 	}
 	if len(got) != len(probes) {
-		return fail(opKey+" print-count", fmt.Sprintf("%s\nprinted %d values, want %d", prog.String(), len(got), len(probes)))
+		return fail(opKey+" print-count", fmt.Sprintf("%s\nprinted %d values, want %d", prog.String(), len(got), len(probes))), true
 	}
 	for i, pr := range probes {
 		if got[i] != pr.want {
-			return fail(pr.key, fmt.Sprintf("%sprint(%s)\nexpected %T %v\nobserved %T %v", head, pr.what, pr.want, pr.want, got[i], got[i]))
+			return fail(pr.key, fmt.Sprintf("%sprint(%s)\nexpected %T %v\nobserved %T %v", head, pr.what, pr.want, pr.want, got[i], got[i])), true
 		}
 	}
-	return kit.Outcome{OK: true, Nontrivial: operandsValid, Class: "both-accept:" + cClass, Ops: ops + len(probes)}
+	return kit.Outcome{}, false
 }
 
 // rounded512IsInt reports whether the non-integer floating-point constant val
 // becomes an integer when rounded to a mantissa of 512 bits.
 func rounded512IsInt(val constant.Value) bool {
-	if val.Kind() != constant.Float {
+	if val.Kind() != constant.Float || constant.ToInt(val).Kind() == constant.Int {
 		return false
 	}
 	f := new(big.Float).SetPrec(512)
@@ -680,7 +701,7 @@ func spaces(tier string) []kit.Space {
 	// untyped spaces always use the full literal set; the typed spaces use it
 	// in the thorough tier and the core subset in the quick tier
 	tl, sc := coreLiterals, coreShiftCounts
-	uops, uops2 := []string{"-", "^"}, []string{"-"}
+	uops, uops2 := []string{"-"}, []string{"-"}
 	if thorough {
 		tl, sc = literals, shiftCounts
 		uops, uops2 = unOps, unOps
@@ -739,7 +760,7 @@ func spaces(tier string) []kit.Space {
 		sps = append(sps, deepSpaces("11.depth2.untyped16", deep16, false)...)
 		sps = append(sps, deepSpaces("12.depth2.typed8", deep8, true)...)
 	} else {
-		sps = append(sps, deepSpaces("11.depth2.untyped8", deep8, false)...)
+		sps = append(sps, deepSpaces("11.depth2.untyped7", deep8[1:], false)...)
 	}
 	return sps
 }
@@ -751,7 +772,7 @@ func main() {
 	kit.Main(&kit.Check{
 		ID:    "C02",
 		Level: "model_checking",
-		Rule:  fmt.Sprintf("every constant expression of the listed shapes over %d literals (0, ±1, 2^k-1/2^k/2^k+1 for k in 7,8,15,16,31,32,63,64, 2^100, 511, 512, 2^511, floats on and off the float64 fast path, beyond float32/float64, rune, strings, bools, imaginary), %d binary and %d unary operators and conversions to the %d basic types: leaf, unary, binary (untyped, T op T, T op untyped, untyped op T), shifts with independently typed operands, unary-of-binary, binary-of-unary, and both depth-2 binary shapes over an 8 (quick) / 16 (thorough) literal subset, thorough also with all three leaves converted to each basic type; in the quick tier the typed binary and shift spaces draw their literals from a 22-literal core subset and the unary-of-binary / binary-of-unary spaces use the unary operators - ^ / - only. Each index is a distinct expression text. A case is non-trivial when every operand of the outermost operator is itself a valid constant expression for go/types, so the verdict depends on the operator and not on a broken leaf", len(literals), len(binOps), len(unOps), len(basicTypes)),
+		Rule:  fmt.Sprintf("every constant expression of the listed shapes over %d literals (0, ±1, 2^k-1/2^k/2^k+1 for k in 7,8,15,16,31,32,63,64, 2^100, 511, 512, 2^511, floats on and off the float64 fast path, beyond float32/float64, rune, strings, bools, imaginary), %d binary and %d unary operators and conversions to the %d basic types: leaf, unary, binary (untyped, T op T, T op untyped, untyped op T), shifts with independently typed operands, unary-of-binary, binary-of-unary, and both depth-2 binary shapes over a 7 (quick) / 16 (thorough) literal subset, thorough also with all three leaves converted to each basic type; in the quick tier the typed binary and shift spaces draw their literals from a 20-literal core subset and the unary-of-binary / binary-of-unary spaces use the unary operator - only. Each index is a distinct expression text. A case is non-trivial when every operand of the outermost operator is itself a valid constant expression for go/types, so the verdict depends on the operator and not on a broken leaf", len(literals), len(binOps), len(unOps), len(basicTypes)),
 		Assumptions: []string{
 			"reference = go/types + go/constant of the toolchain that builds the check (GoVersion go1.25, 64-bit int)",
 			"values are compared after conversion to each basic type (floats after rounding to the type) and, for integers, dyadic rationals, strings and booleans, exactly against a literal; non-dyadic untyped float values are compared only through float32/float64/complex rounding",
@@ -760,5 +781,7 @@ func main() {
 			"a compound expression whose operand already fails on its own is reported under the operand's failure key",
 		},
 		Spaces: spaces,
+		// safety net on an overloaded machine: ~6 min on 16 idle cores
+		Budget: map[string]time.Duration{"thorough": 30 * time.Minute},
 	})
 }
